@@ -1,2 +1,23 @@
-(* placeholder until the first theorems land *)
-From LV Require Import Cst.
+(* C01 - generated parsers build a lossless syntax tree for every input.
+   Statement pins, [exact] and Print Assumptions only. *)
+From Coq Require Import List.
+From LV Require Import Cst Tree ABuild Runtime Exec Refine.
+Import ListNotations.
+
+(* the token cells of the pre-order layout of a tree are its leaves, in order *)
+Theorem C01_tok_cells_flatten : forall t, tok_cells (flatten t) = leaves t.
+Proof. exact tok_cells_flatten. Qed.
+
+(* a valid builder history closed at the root yields the layout of the reference tree,
+   and decoding that layout gives the tree back (so walking it visits exactly its cells) *)
+Theorem C01_close_root : forall c sn g m k t,
+  Inv c sn g -> a_close_root (g_abs g) m k = Some t ->
+  exists c', c_close_root c m k = Ok c' /\ nodes c' = flatten t.
+Proof. exact close_root_refines. Qed.
+
+Theorem C01_decode_flatten : forall t, decode (flatten t) = Some t.
+Proof. exact decode_flatten. Qed.
+
+Print Assumptions C01_tok_cells_flatten.
+Print Assumptions C01_close_root.
+Print Assumptions C01_decode_flatten.
